@@ -27,7 +27,8 @@ LEVEL = "exploration"
 RULE = ("three drivers: (server) C02-style histories on a fresh LocalNode biased to refusals - wo reads, "
         "ro/const writes, missing index, missing record sub-index, numeric types x payload lengths 0..9 "
         "(expedited, segmented with/without size), entries without value, wrong toggle, ccs 7, block "
-        "download - placed before/between/after successful transfers; (client_api) the same refusals "
+        "download, and the access type of an entry changed by the application while serving (every ordered "
+        "pair of rw/ro/wo/const) - placed before/between/after successful transfers; (client_api) the same refusals "
         "through RemoteNode.sdo against the library's server, comparing the raised code with the abort "
         "frame on the wire; (decode) a scripted peer aborting with codes {all documented, 0, 1, 2^31, "
         "2^32-1, random} at every protocol step. Oracle: table condition -> CiA 301 code set, "
@@ -253,6 +254,31 @@ def refusal_matrix():
                                     {"op": "upload", "index": index, "sub": sub}, ok_after,
                                     {"op": "upload", "index": 0x2100, "sub": 0}]
                             yield {"kind": "server", "od": od, "ops": ops}
+    # the access type of an entry changes while the node is serving: every ordered pair
+    for dt in (rc.UNSIGNED16, rc.DOMAIN):
+        d_ok = b"\x34\x12" if dt == rc.UNSIGNED16 else b"0123456789abc"
+        stl = "exp" if dt == rc.UNSIGNED16 else "seg_size"
+        for a in ("rw", "ro", "wo", "const"):
+            for b in ("rw", "ro", "wo", "const"):
+                if a == b:
+                    continue
+                od = [good, {"kind": "var", "index": 0x2000, "name": "num", "dt": dt, "access": a,
+                             "default": 7 if dt == rc.UNSIGNED16 else b"dflt"},
+                      {"kind": "record", "index": 0x2001, "name": "rec", "members": [
+                          {"sub": 0, "name": "n", "dt": rc.UNSIGNED8, "access": "ro", "default": 2},
+                          {"sub": 2, "name": "m", "dt": dt, "access": a,
+                           "default": 9 if dt == rc.UNSIGNED16 else b"member"}]}]
+                for (index, sub) in ((0x2000, 0), (0x2001, 2)):
+                    yield {"kind": "server", "od": od, "ops": [
+                        {"op": "upload", "index": index, "sub": sub},
+                        {"op": "download", "index": index, "sub": sub, "data": d_ok, "style": stl},
+                        {"op": "set_access", "index": index, "sub": sub, "access": b},
+                        {"op": "upload", "index": index, "sub": sub},
+                        {"op": "download", "index": index, "sub": sub, "data": d_ok[::-1], "style": stl},
+                        {"op": "upload", "index": index, "sub": sub},
+                        {"op": "set_access", "index": index, "sub": sub, "access": a},
+                        {"op": "download", "index": index, "sub": sub, "data": d_ok, "style": stl},
+                        {"op": "upload", "index": index, "sub": sub}, ok_after]}
     # arrays: listed and template-described members under every access type
     for access in ("rw", "ro", "wo", "const"):
         for dt in (rc.UNSIGNED16, rc.INTEGER24, rc.DOMAIN):
